@@ -47,7 +47,7 @@ theorem request_time_is_clock (chains : List (Key × Chain)) (clock : Option Tim
   · simp only [Except.ok.injEq] at h; rw [← h]
 
 /-- **What the entry reports is what the account had**: in the entry of a successful rebalance,
-    `interest` is the amount just credited, `nlvPre` the value of the pre-trade valuation, `trades` the
+    `interest` is the amount just credited, `nlvPre` the value of the pre-trade valuation and `cashPre` the cash of that same marked state, `trades` the
     trades computed from that snapshot — all executed, in order — and `nlvPost` the valuation of the
     resulting state; the recorded post-trade holdings are the actual positions. -/
 theorem entry_is_actual (pw : K → K → K) (w : World K) (r : Rebal K) (b : Broker K)
@@ -57,7 +57,8 @@ theorem entry_is_actual (pw : K → K → K) (w : World K) (r : Rebal K) (b : Br
       makeTrades w b2 n r = .ok ts ∧ netLiq w true (ts.foldl (transact w) b2) = (b4, .ok m) ∧
       (rebalance pw w r b).1.record = b.record ++
         [{ time := r.time, interest := i, nlvPre := n, nlvPost := m, trades := ts,
-           target := cleanAlloc w r.target, posPost := b4.held.map (fun k => (k, b4.pos k)), cashPost := b4.cash }] ∧
+           target := cleanAlloc w r.target, posPost := b4.held.map (fun k => (k, b4.pos k)), cashPost := b4.cash,
+           cashPre := b2.cash }] ∧
       (rebalance pw w r b).1.pos = b4.pos ∧ (rebalance pw w r b).1.cash = b4.cash := by
   obtain ⟨_, f2, _, _⟩ := accrue_frame pw w r.time true b
   unfold rebalance at h ⊢
